@@ -435,6 +435,8 @@ def nd_dtype(I, obj):
 
 
 def cast_scalar(I, v, dt):
+    if v is None and dt == 'float':
+        return NAN                      # numpy: float(None) inside asarray(.., dtype=float) is nan
     k = numkind(v)
     if k is None or dt is None:
         return v
@@ -939,7 +941,10 @@ def _ewise3(I, mask, a, b):
         out = []
         for k in range(len(bi)):
             x = ai[k] if ai is not None else a
-            out.append(I.ite(zbool(mi[k]) if isinstance(mi[k], SV) else z3.BoolVal(bool(mi[k])), x, bi[k]))
+            if not isinstance(mi[k], SV):
+                out.append(x if mi[k] else bi[k])
+                continue
+            out.append(I.ite(zbool(mi[k]), x, bi[k]))
         return I.st.alloc('clist', out, nd=True)
     lm, am, em = to_slist(I, mask) if mask.kind == 'slist' else (None, None, None)
     if lm is None:
@@ -1655,8 +1660,8 @@ def container_method(I, obj, name):
                     raise Unsupported('reshape of an array of symbolic shape')
                 return _lib.nd_build(I_, _lib.nd_reshape(_lib.nd_flat(n), shp))
             return B(reshape)
-        if name == 'ptp' and obj.nd:
-            f = lib_lookup(I, 'numpy.ptp')
+        if name in ('ptp', 'argmin', 'argmax') and obj.nd:
+            f = lib_lookup(I, 'numpy.' + name)
             return B(lambda I_, a, k: I_.call(f, [obj] + a, k))
         if name == 'ndim' and obj.nd:
             if obj.kind == 'clist' and st.heap[obj] and all(is_list(x) for x in st.heap[obj]):
@@ -1857,6 +1862,17 @@ def _astype(I, obj, t):
             c.nd = True
             _deep_nd(I, c)
         return c
+    if dt == 'bool' and r.kind == 'clist':
+        def tobool(v):
+            if is_list(v):
+                return I.st.alloc('clist', [tobool(y) for y in I.st.heap[v]], nd=True)
+            if numkind(v) == 'bool':
+                return v
+            if numkind(v) is None:
+                raise Unsupported('astype(bool) of %r' % (v,))
+            c = compare(I, ast.NotEq(), v, 0)
+            return c
+        return tobool(r)
     raise Unsupported('astype(%s)' % dt)
 
 
